@@ -532,7 +532,22 @@ class Component(CaselessDict):
         subs = ', '.join(str(it) for it in self.subcomponents)
         return f"{self.name or type(self).__name__}({dict(self)}{', ' + subs if subs else ''})"
 
+    def copy(self):
+        """Copy the properties; the copy is a component of the same kind.
+
+        Components that are not defined in RFC 5545 carry their name on the
+        instance, so it has to be carried over.
+        """
+        result = super().copy()
+        if result.name != self.name:
+            result.name = self.name
+        return result
+
     def __eq__(self, other):
+        if not isinstance(other, Component):
+            return False
+        if self.name != other.name:
+            return False
         if len(self.subcomponents) != len(other.subcomponents):
             return False
 
@@ -544,9 +559,14 @@ class Component(CaselessDict):
         # neither there's a natural key we can sort the subcomponents by nor
         # are the subcomponent types hashable, so  we cant put them in a set to
         # check for set equivalence. We have to iterate over the subcomponents
-        # and look for each of them in the list.
+        # and match each of them with one remaining subcomponent of the other.
+        unmatched = list(other.subcomponents)
         for subcomponent in self.subcomponents:
-            if subcomponent not in other.subcomponents:
+            for index, candidate in enumerate(unmatched):
+                if subcomponent == candidate:
+                    del unmatched[index]
+                    break
+            else:
                 return False
 
         return True
